@@ -319,6 +319,35 @@ let codec_case (line : string) : string =
                | _ -> failwith "conv")
   | _ -> failwith "bad codec op"
 
+(* ---- domain control ---- *)
+let id_of_term (t : term) : string = match t with
+  | TInt z -> dec_of_z z
+  | TBig (_, d) -> udec_of_n (List.fold_right (fun b acc -> N.add b (N.mul (n_of_int 256) acc)) d N0)
+  | _ -> "?"
+let show_cmsg (m : cmsg) : string =
+  let tos = term_str (to_term control_table m) and intos = term_str (into_term control_table m) in
+  match m with
+  | CMsg (v, fs) ->
+      let fl = List.map (fun (r, t) -> if int_of_n r = 20 then "20=U" ^ id_of_term t else Printf.sprintf "%d=%s" (int_of_n r) (term_str t)) fs in
+      Printf.sprintf "ok %d | %s || to=%s || into=%s" (int_of_n v) (String.concat " | " fl) tos intos
+  | CGeneric (ty, fs) ->
+      Printf.sprintf "ok G%d | %s || to=%s || into=%s" (int_of_n ty) (String.concat " | " (List.map term_str fs)) tos intos
+let control_case (line : string) : string =
+  let op, rest = match String.index_opt line ' ' with
+    | Some i -> String.sub line 0 i, String.sub line (i+1) (String.length line - i - 1) | None -> line, "" in
+  let t = term_of_string cmp_owned rest in
+  match op with
+  | "ctl" -> (match from_term control_table t with COk m -> show_cmsg m | CErr _ -> "err")
+  | "ctlw" -> (match from_term control_table t with
+      | CErr _ -> "err"
+      | COk m ->
+          (match encode (to_term control_table m) with
+           | EErr _ -> "err encode"
+           | EOk b -> (match decode (mk_cfg owned_arms [] []) b with
+               | DOk t2 -> (match from_term control_table t2 with COk m2 -> show_cmsg m2 | CErr _ -> "err reparse")
+               | _ -> "err decode")))
+  | _ -> failwith "bad control op"
+
 (* ---- domain ord ---- *)
 let cmp_str = function Lt -> "lt" | Eq -> "eq" | Gt -> "gt"
 let split_bar (s : string) : string * string =
@@ -376,6 +405,7 @@ let () =
     | "framing" -> framing_case
     | "codec" -> codec_case
     | "ord" -> ord_case
+    | "control" -> control_case
     | _ -> prerr_endline ("unknown domain " ^ domain); exit 2 in
   (try
     while true do
